@@ -2323,9 +2323,10 @@ let handle sv r =
       | Some sn ->
         (match find_sub sn sv.sv_subs with
          | Some s ->
-           let (s', ls) = sub_pull (as_u16 max0) now s in
-           (((with_subs sv (upd_sub s.s_uid (fun _ -> s') sv.sv_subs)),
-           (PMsgs ls)), (touch1 s.s_uid))
+           (((with_subs sv
+               (upd_sub s.s_uid (fun s0 ->
+                 fst (sub_pull (as_u16 max0) now s0)) sv.sv_subs)), (PMsgs
+             (snd (sub_pull (as_u16 max0) now s)))), (touch1 s.s_uid))
          | None -> ((sv, (PErr nOT_FOUND)), no_touch))
       | None -> ((sv, (PErr iNVALID_ARGUMENT)), no_touch))
    | RAck (n0, ids) ->
